@@ -53,7 +53,7 @@ fn main() {
                 if req.is_empty() {
                     continue;
                 }
-                if std::env::var("VERIF_ISOLATE").map(|v| v == "1").unwrap_or(false) && (req.starts_with("asm ") || req.starts_with("asm2 ") || req.starts_with("opnd ") || req.starts_with("jsp ") || req.starts_with("asmx ") || req.starts_with("asmre ")) {
+                if std::env::var("VERIF_ISOLATE").map(|v| v == "1").unwrap_or(false) && (req.starts_with("asm ") || req.starts_with("asm2 ") || req.starts_with("opnd ") || req.starts_with("jsp ") || req.starts_with("asmx ") || req.starts_with("asmre ") || req.starts_with("role ")) {
                     // one child process per request: a stack overflow / abort of the code under test is an answer, not our death
                     use std::io::Write as _;
                     use std::process::{Command, Stdio};
@@ -69,7 +69,7 @@ fn main() {
                     }
                     continue;
                 }
-                let ans = if req.starts_with("cli ") { l4::answer(req) } else if req.starts_with("asm ") || req.starts_with("asm2 ") || req.starts_with("opnd ") || req.starts_with("jsp ") || req.starts_with("asmx ") || req.starts_with("asmre ") || req.starts_with("run ") { l3::answer(req) } else if req.starts_with("x ") || req.starts_with("xr ") || req.starts_with("xs ") { l2::answer(req) } else { l1::answer(req) };
+                let ans = if req.starts_with("cli ") { l4::answer(req) } else if req.starts_with("asm ") || req.starts_with("asm2 ") || req.starts_with("opnd ") || req.starts_with("jsp ") || req.starts_with("asmx ") || req.starts_with("asmre ") || req.starts_with("role ") || req.starts_with("run ") { l3::answer(req) } else if req.starts_with("x ") || req.starts_with("xr ") || req.starts_with("xs ") { l2::answer(req) } else { l1::answer(req) };
                 writeln!(out, "{} => {}", req, ans).unwrap();
             }
         }
